@@ -114,6 +114,28 @@ Theorem C11_retention_hyps : forall K pis, Forall (valid_put K) pis -> Forall (f
 Proof. exact retention_hyps. Qed.
 Print Assumptions C11_retention_hyps.
 
+(* the invariants of the three retention clauses hold after EVERY history of ingests (valid range, tree as
+   built by Insert), queries, deletes and retention passes, with retention on or off *)
+Theorem C11_invariants_run : forall K rt ops, Forall (good_op K) ops -> forall st, st_good K st ->
+  st_good K (fst (st_run rt ops st)).
+Proof. exact good_run. Qed.
+Print Assumptions C11_invariants_run.
+
+(* C11_retention over histories: after any such history, a further pass at thr leaves queries starting at or
+   after the threshold unchanged (tree, timeline), empties queries ending at or before it, and never
+   increases any stack count *)
+Theorem C11_retention_run : forall K rt ops thr sel from until p, Forall (good_op K) ops ->
+  let st := fst (st_run rt ops st_init) in
+  let ab := s_normalize_unix (from, until) in
+  fst ab < snd ab -> has_average (st_matching sel st) = false ->
+  (unix_to_slot thr <= fst ab ->
+     option_map (fun o => (go_tree o, go_timeline o)) (st_get sel from until (st_retention thr st)) =
+     option_map (fun o => (go_tree o, go_timeline o)) (st_get sel from until st)) /\
+  (snd ab <= unix_to_slot thr -> st_get sel from until (st_retention thr st) = None) /\
+  (get_self p (st_get sel from until (st_retention thr st)) <= get_self p (st_get sel from until st))%N.
+Proof. exact retention_run. Qed.
+Print Assumptions C11_retention_run.
+
 (* ---- non-vacuity (the D4 shape): foo gets [0,10) and [10,20) — its root bucket becomes aggregated —,
    bar one upload; Delete foo; re-ingest foo [0,10) with another stack: the old stack p;q is gone ---- *)
 Definition ex_foo : sid := {| sid_key := [102;111;111;123;125]%N; sid_app := [102;111;111]%N; sid_tags := [] |}.
@@ -164,3 +186,15 @@ Example C11_retention_nonvacuous :
   get_self [[112]%N; [113]%N] (st_get ex_foo 1600000000 1600000020 (st_retention 1600000020 st)) = 0%N /\
   has_average (st_matching ex_foo st) = false.
 Proof. vm_compute. repeat split. Qed.
+
+Example C11_retention_run_nonvacuous :
+  let ops := [OpPut (ex_put ex_foo 1600000000 1600000010 [112;59;113]%N 6%N); OpRetention 1600000005;
+              OpPut (ex_put ex_foo 1600000010 1600000020 [112;59;113]%N 4%N); OpDelete ex_bar;
+              OpPut (ex_put ex_bar 1600000010 1600000020 [122]%N 3%N); OpGet ex_foo 1600000000 1600000020] in
+  Forall (good_op 63) ops /\
+  get_self [[112]%N; [113]%N] (st_get ex_foo 1600000000 1600000020 (fst (st_run None ops st_init))) = 10%N /\
+  get_self [[112]%N; [113]%N] (st_get ex_foo 1600000000 1600000020 (st_retention 1600000010 (fst (st_run None ops st_init)))) = 4%N.
+Proof.
+  cbv zeta. split; [|split; vm_compute; reflexivity].
+  repeat (apply Forall_cons; [first [exact I | split; [apply valid_rangeb_ok; vm_compute; reflexivity|split; vm_compute; reflexivity]]|]). apply Forall_nil.
+Qed.
